@@ -451,7 +451,14 @@ func ruleC11_4_7(c *Ctx, r *Rep) {
 		if sel != nil {
 			ida := sel.Find("", "id", "in")
 			need := len(ida) == 1 && len(sel.Find("", "completed_at", "isnull")) == 1 && len(sel.Find("", "expires_at", "gte", "gt")) == 1
-			why = "the refresh must ask the database for `id IN <snapshot of pending> ∧ completed_at IS NULL ∧ not expired`"
+			if need {
+				// nothing else may narrow "still outstanding": a row the query misses is dropped from the accounting
+				_, extra, _ := c.matchAtoms(sel.Where, []ap{{col: "id", ops: []string{"in"}}, {col: "completed_at", ops: []string{"isnull"}}, {col: "expires_at", ops: []string{"gte", "gt"}}}, nil)
+				if len(extra) > 0 {
+					need = false
+				}
+			}
+			why = "the refresh must ask the database for exactly `id IN <snapshot of pending> ∧ completed_at IS NULL ∧ not expired` (a further restricting atom drops messages the client still holds from the window accounting)"
 			if need {
 				// the removal loop ranges over the same snapshot as the query (not over the live map)
 				ok = true
